@@ -308,6 +308,16 @@ def check_query_helpers(ctx, rng):
     if not others_ok(new):
         ctx.violation(f"query|{op}|other-components-changed", case, str(new))
     check_repr(ctx, new)
+    # the helpers return new URLs: the URL they were called on is unchanged, and calling a helper on it again gives the same answer
+    if str(base) != "http://u:pw@h:81/p" + ("?" + urlencode(pairs) if pairs else "") + "#f":
+        ctx.violation(f"query|{op}|the-original-url-was-modified", case, str(base))
+    again = base.include_query_params(**case["kwargs"]) if op == "include" else base.replace_query_params(**case["kwargs"]) if op == "replace" else base.remove_query_params(*case["keys"])
+    other = base.remove_query_params("a") if op != "remove" else base.include_query_params(zz="1")
+    if str(again) != str(new):
+        ctx.violation(f"query|{op}|second-call-on-the-same-url-differs", case, f"{new} then {again}")
+    exp_other = [(k, v) for k, v in pairs if k != "a"] if op != "remove" else [(k, v) for k, v in pairs if k != "zz"] + [("zz", "1")]
+    if parse_qsl(other.query, keep_blank_values=True) != exp_other:
+        ctx.violation(f"query|another-helper-after-{op}-sees-its-edits", case, f"{other.query!r}, expected {exp_other!r}")
     return case
 
 
